@@ -26,6 +26,17 @@ pub fn registry(property: &str) -> Option<CheckSpec> {
                 "unix timestamps stay below 2^62 so that approved_at + delay never saturates".into(),
             ],
         }),
+        // C19 part for the timelock program: byzantine twins of every landed privileged timelock transaction.
+        "C19" => Some(CheckSpec {
+            property: "C19",
+            level: "fault_enumeration",
+            parts: vec![Part::new(sim::Timelock, 25_000, 400_000)],
+            assumptions: vec![
+                "timelock program only; the documented privilege per instruction: initialize_config / increase_delay / cancel_instruction(s): TIMELOCK_ADMIN; create_instruction_buffer / execute_instruction: TIMELOCK_KEEPER; approve_instruction(s): __TLD_<executor role>; revoke_role: __TLD_ADMIN; set_expected_price_provider: __TLD_MARKET_KEEPER".into(),
+                "twins run on a fork of the pre-state of a transaction that landed with a rightful signer; the 'every other role' twin gets its roles by editing the store account of the fork with the store's own `Store::grant`".into(),
+                "chainsim runtime stub stands in for the Solana runtime; signatures are not verified".into(),
+            ],
+        }),
         _ => None,
     }
 }
